@@ -30,7 +30,8 @@ CLAIMED = {
              'C03', 'An out-of-repository implementor overriding defaults inconsistently is not decidable from the source.', SA + 'override inventory + abstract interpretation + taint (non-interference) analysis'),
     'C04': c('proof', 'Closed-writer proof of a data-structure invariant: private field, no mutable access path, every construction site and unsafe-constructor '
              'call site in every feature configuration receives an in-range operand (value-set abstract interpretation), From/TryFrom impl table passes '
-             'type-range arithmetic, new/TryFrom/FromStr reject exactly out-of-range input, no impossible cfg.',
+             'type-range arithmetic, new/TryFrom/FromStr reject exactly out-of-range input, no impossible cfg. The configurations include the two '
+             'feature sets as a release profile compiles them (debug assertions off), so a guard written as debug_assert! does not count.',
              'C04', 'Assume/guarantee on newtype values entering from outside, closed by the audit itself; core parser returns a value of the primitive type.',
              SA + 'closed-writer audit: abstract interpretation (value sets) of all MIR bodies per feature configuration + impl-table range arithmetic + rustc unexpected_cfgs lint'),
     'C05': c('other', 'Cast rule at every `as` of the conversion impls, value identity of all From/TryFrom impls by outcome summary, builtin-derive audit, '
